@@ -55,6 +55,13 @@ class C05(Prop):
         self.h.setup()
 
     def strategy(self, tier):
+        from .c08 import C08
+
+        # one case in five: a program of the C08 family (failing steps under retry policies, @catch_error handlers that swallow, re-emit,
+        # stop or raise): what a HANDLER's own retry_info() and its own WorkflowFailedEvent report
+        return st.one_of(self._policy_cases(), self._policy_cases(), self._policy_cases(), self._policy_cases(), C08().strategy(tier).map(lambda p: {"handler_program": p}))
+
+    def _policy_cases(self):
         return st.fixed_dictionaries(
             {
                 "stop": _stop_tree(),
@@ -107,11 +114,55 @@ class C05(Prop):
             if j > 40:
                 return out, "runaway"
 
+    def run_handler_program(self, case):
+        """retry_info() / failed-event bookkeeping of @catch_error handlers: a handler invocation is a first execution of its own."""
+        from ..boot import Runaway
+        from .c08 import C08
+
+        r = CaseResult()
+        spec = C08().prepare(case["handler_program"])
+        try:
+            rec = genwf.run_case_program(json.loads(json.dumps(spec)), probe=False)
+        except Runaway:
+            raise RuntimeError("inconclusive: handler program did not end") from None
+        r.classes.append("handler_program")
+        handlers = {s_["name"] for s_ in spec["steps"] if s_.get("role") == "catch_error"}
+        n_h = 0
+        for inv in rec.inv:
+            if inv["step"] not in handlers:
+                continue
+            n_h += 1
+            ri = inv["ri"]
+            # handlers of this family have no retry policy: every handler invocation is attempt 0 of a new event
+            if ri.retry_number != 0 or ri.last_exception is not None or ri.last_failed_at is not None or abs(ri.elapsed_seconds) > 1e-6:
+                r.v("handler_retry_info_not_clean", retry_number=ri.retry_number, last_exception=repr(ri.last_exception)[:40], elapsed=round(min(ri.elapsed_seconds, 1e9), 6))
+                break
+        out = rec.outcome
+        if out["kind"] == "failed":
+            fe = [e for _, e in rec.stream if type(e).__name__ == "WorkflowFailedEvent"]
+            if len(fe) == 1 and fe[0].step_name in handlers:
+                # the handler ran once (no retry policy) and failed: one attempt, elapsed = its own duration
+                hinv = [i for i in rec.inv if i["step"] == fe[0].step_name and i["exit"] == "raised"]
+                if fe[0].attempts != 1:
+                    r.v("failed_event_attempts", got=fe[0].attempts, want=1, handler_step=True)
+                if hinv:
+                    own = hinv[-1]["t_out"] - hinv[-1]["t_in"]
+                    if abs(fe[0].elapsed_seconds - own) > 1e-3:
+                        r.v("failed_event_elapsed", got=round(min(fe[0].elapsed_seconds, 1e9), 6), want=round(own, 6), handler_step=True)
+                r.classes.append("handler_step_failed_the_run")
+        if n_h:
+            r.classes.append("handler_entered")
+        r.nontrivial = n_h > 0
+        r.sample = {"spec": case, "handler_entries": n_h, "outcome": out["kind"]}
+        return r
+
     def run_case(self, case):
         from ..boot import Runaway
         from .c07 import EXC_TYPES
 
         case = json.loads(json.dumps(case))
+        if "handler_program" in case:
+            return self.run_handler_program(case)
         r = CaseResult()
         policy, stop_tree = self.build_policy(case)
         m, workers = case.get("m", 1), case.get("workers", 1)
